@@ -16,7 +16,7 @@ from evalutil import as_bool
 
 S = Sym
 PROPERTY = 'C05'
-PROPS_MODULES = ['C05']
+PROPS_MODULES = ['C05', 'C05b']
 ASSUMPTIONS = ['the clash injector produces only terms with a definite clash (cross-checked: every position clash must be flagged by the '
                'proved-sound Lean detector hasClashB, every one must be rejected by the model)']
 
